@@ -45,6 +45,9 @@ def gen_cases(tier, seed):
     # (iii) header and payload are two transport writes: only concurrent senders can tear a message apart
     for i in range(300 if tier == "quick" else 6000):
         yield {"kind": "threads", "seed": "%d:t%d" % (seed, i), "impl": "async" if i % 4 == 0 else "sync"}
+    # a link that stops accepting bytes in the middle of a message until the operation gives up; then the same object connects again
+    for i in range(60 if tier == "quick" else 600):
+        yield {"kind": "stuck", "seed": "%d:st%d" % (seed, i), "impl": ("sync", "async")[i % 2]}
 
 
 def payload_for(rng):
@@ -256,6 +259,59 @@ def run_case(case):
         stats["concurrent_switches"] = res["switches"]
         return {"sig": "threads|%s|%s" % (case["impl"], hash(res["trace"])) if res["switches"] else None, "violations": viol[:3], "stats": stats,
                 "sample": {"kind": "threads", "actors": [[s_["op"] for s_ in a] for a in steps], "switches": res["switches"], "host_packets": res.get("host_packets")} if case["seed"].endswith("t3") else None}
+    if case["kind"] == "stuck":
+        rng = gen.rng_for("C02s", case["seed"])
+        sc = scen.gen_scenario(rng, nsteps=rng.randint(2, 5), long_cmds=True)
+        sc["dims"]["noise"] = []
+        state = {"stuck_at": rng.randint(1, 16), "after": rng.choice([0, 1, 5, 23, 24, 100]), "writes": 0, "stuck": False, "healed": False}
+
+        def writecap(call_no, n, r_):
+            if state["healed"] or not state.get("armed"):
+                return n
+            state["writes"] += 1
+            if state["stuck"]:
+                return 0
+            if state["writes"] >= state["stuck_at"] and n > state["after"]:
+                state["stuck"] = True
+                return state["after"]
+            return n
+        sess = gen.make_session(case["impl"], sc["dims"], case["seed"], writecap=writecap, budget=2000000)
+        state["armed"] = True
+        r = scen.Runner(sess, sc)
+        try:
+            raised = None
+            for i, step in enumerate(sc["steps"]):
+                o, v = r.run_step(i, step)
+                if not o.ok:
+                    raised = o
+                    break
+            stats["stuck_links"] = 1 if state["stuck"] else 0
+            if state["stuck"]:
+                if raised is None:
+                    viol.append({"mechanism": "stuck-write-ignored", "detail": "the link accepted %d bytes of a message and then nothing, yet every call returned normally" % state["after"]})
+                state["healed"] = True
+                if rng.random() < 0.4:
+                    sess.call("close")
+                n_old = len(sess.sim.host_log)
+                oc = sess.call("connect")
+                stats["reconnects_after_stuck_write"] = 1
+                if not (oc.ok and oc.value is True):
+                    viol.append({"mechanism": "reconnect-after-stuck-write", "detail": "connect() on the healed link: %s (the new connection must start with a well-formed CNXN)" % oc.brief(120)})
+                else:
+                    for i, step in enumerate(sc["steps"]):
+                        o, v = r.run_step(50 + i, step)
+                        if not o.ok or v:
+                            viol.append({"mechanism": "session-after-stuck-write", "detail": "step %d %s on the new connection: %s %s" % (i, step["op"], o.brief(100), v[0]["detail"][:100] if v else "")})
+                            break
+                stats["messages_parsed"] += len(sess.sim.host_log) - n_old
+            for v in sess.monitor.of("C02"):
+                viol.append({"mechanism": v.rule, "detail": "after a write that got stuck inside a message and a re-connect: " + v.detail})
+            stats["stream_messages"] += len(sess.sim.host_log)
+            return {"sig": "stuck|%s|%d|%d|%s" % (case["impl"], state["stuck_at"], state["after"], ",".join(s_["op"] for s_ in sc["steps"])) if state["stuck"] else None,
+                    "violations": viol[:3], "stats": stats, "sample": {"kind": "stuck", "case": case, "state": {k_: v_ for k_, v_ in state.items()}} if case["seed"].endswith("st3") else None}
+        finally:
+            r.cleanup()
+            sess.dispose()
     # mix
     rng = gen.rng_for("C02m", case["seed"])
     sc = scen.gen_scenario(rng, big=rng.random() < 0.1, long_cmds=True)
